@@ -297,6 +297,11 @@ pub fn run(_seed: u64, _thorough: bool, rep: &mut Report) {
                 }
                 out = format!("{out} probe={code}");
             }
+            // a thread parked in the carrier's wait means the tower has noticed the outage: from that moment the API must
+            // answer `service unavailable`, i.e. the flag is down
+            if out.starts_with("flag=1") && (out.contains("api=wait") || out.contains("chain=wait")) {
+                rep.fail("C12", "outage_noticed_but_not_flagged", &format!("scenario {name}: a thread waits for the node to come back ({out}) but the tower is still flagged reachable: the public API keeps taking new work"));
+            }
             if *act == Act::Poll {
                 // the property itself: a poll that ran to completion against a reachable node must leave
                 // the tower flagged reachable (it is the only thing that ever wakes the waiters)
